@@ -52,6 +52,18 @@ def rule_R21(ctx, rep, config="c-lib"):
             key = "%s/%s#%d" % (f.name, arr.split(".")[-1], n)
             ix = pa.steps[-1][1]
 
+            def core_of(b):
+                """the set core a bound field is loaded from, as the canonical text of its address"""
+                if b is None or b.root[0] != "val" or not b.steps:
+                    return None
+                prev_ = expr.NAMED[0]
+                expr.NAMED[0] = True
+                try:
+                    return repr(expr.lin(f, b.root[1], 0, 3))
+                finally:
+                    expr.NAMED[0] = prev_
+            arr_core = core_of(lp) if arr == "set_core.parent_indexes" else None
+
             def conds_of(raw):
                 expr.NAMED[0] = True
                 try:
@@ -62,10 +74,15 @@ def rule_R21(ctx, rep, config="c-lib"):
                             continue
                         b = loaded_from(f, c.ops[1])
                         bf = b.last_field() if b is not None else None
+                        # a bound taken from another set core than the one whose parent_indexes are read says nothing about this array
+                        if arr_core is not None and bf in ("set_core.n_start_sits", "set_core.n_all_dists") and core_of(b) not in (None, arr_core):
+                            other_core.append((c, core_of(b)))
+                            continue
                         out.append((repr(expr.lin(f, c.ops[0], 0, 2)), r, bf, repr(expr.lin(f, c.ops[1], 0, 2))))
                     return out
                 finally:
                     expr.NAMED[0] = False
+            other_core = []
 
             def named(op):
                 expr.NAMED[0] = True
@@ -129,6 +146,8 @@ def rule_R21(ctx, rep, config="c-lib"):
             ixs = named(ix)
             how, why = judge(ix, conds_of(_controlling_conditions(f, i.block.name)))
             if how is None:
+                if other_core:
+                    why += " -- the bounds tested (%s) belong to another set core (%s) than the array (%s)" % (other_core[0][0].where(), other_core[0][1], arr_core)
                 rep.violation("R21", key, why, where=i.where(), witness=[i.where()])
                 continue
             if how:
